@@ -180,5 +180,3 @@ func hasTag(tags []string, p string) bool {
 
 var _ = sort.Strings
 var _ = strings.TrimSpace
-
-func CmdCheck(args []string) int { return 2 }
